@@ -419,6 +419,69 @@ func c02LimitBody(res *string) func(x *sched.Exec) {
 	}
 }
 
+// c02CreateBody: "seen by every registered reader" while instruments are still being created.
+// Three threads each create their own counter on one meter (one scope: the order in which a
+// collection lists several scopes is map order, different from run to run) -- with both number
+// types, which have separate aggregator caches, so that creations really overlap -- and record
+// once; afterwards a delta and a cumulative reader must each report all three streams with their
+// values.
+func c02CreateBody(res *string) func(x *sched.Exec) {
+	return func(x *sched.Exec) {
+		ctx := context.Background()
+		delta := NewManualReader(WithTemporalitySelector(func(InstrumentKind) metricdata.Temporality { return metricdata.DeltaTemporality }))
+		cum := NewManualReader()
+		mp := NewMeterProvider(WithReader(delta), WithReader(cum))
+		var wg vsync.WaitGroup
+		wg.Add(3)
+		sched.Go(func() {
+			defer wg.Done()
+			c, _ := mp.Meter("a").Int64Counter("x")
+			c.Add(ctx, 1)
+		})
+		sched.Go(func() {
+			defer wg.Done()
+			c, _ := mp.Meter("a").Float64Counter("y")
+			c.Add(ctx, 3)
+		})
+		sched.Go(func() {
+			defer wg.Done()
+			c, _ := mp.Meter("a").Float64UpDownCounter("z")
+			c.Add(ctx, 9)
+		})
+		wg.Wait()
+		var out []string
+		for _, rd := range []struct {
+			name string
+			r    *ManualReader
+		}{{"delta", delta}, {"cumulative", cum}} {
+			var rm metricdata.ResourceMetrics
+			if err := rd.r.Collect(ctx, &rm); err != nil {
+				x.Fail("C02|concurrent-creation|collect-error", "Collect: %v", err)
+			}
+			got := map[string]float64{}
+			for _, sm := range rm.ScopeMetrics {
+				for _, m := range sm.Metrics {
+					switch d := m.Data.(type) {
+					case metricdata.Sum[int64]:
+						for _, dp := range d.DataPoints {
+							got[sm.Scope.Name+"/"+m.Name] += float64(dp.Value)
+						}
+					case metricdata.Sum[float64]:
+						for _, dp := range d.DataPoints {
+							got[sm.Scope.Name+"/"+m.Name] += dp.Value
+						}
+					}
+				}
+			}
+			if fmt.Sprint(got) != fmt.Sprint(map[string]float64{"a/x": 1, "a/y": 3, "a/z": 9}) {
+				x.Fail("C02|concurrent-creation|stream-missing-from-a-reader", "three counters created and recorded concurrently (a/x=1, a/y=3, a/z=9): the %s reader reports %v", rd.name, got)
+			}
+			out = append(out, fmt.Sprint(got))
+		}
+		*res = strings.Join(out, " ")
+	}
+}
+
 type c02Job struct {
 	sc   c02Scn
 	p, e int
@@ -697,7 +760,7 @@ func TestVerifC02(t *testing.T) {
 	for _, j := range all {
 		names = append(names, j.name())
 	}
-	names = append(names, "same-name-kinds", "many-sets", "M8-limit2-overflow/P2E0")
+	names = append(names, "same-name-kinds", "many-sets", "M8-limit2-overflow/P2E0", "M9-concurrent-creation/P2E0")
 	enum.Jobs(names, func(job string) {
 		r := enum.Start("C02", "sums")
 		defer r.Finish()
@@ -709,6 +772,13 @@ func TestVerifC02(t *testing.T) {
 		if job == "many-sets" {
 			r.Section(job)
 			c02ManySets(r)
+			return
+		}
+		if job == "M9-concurrent-creation/P2E0" {
+			var res string
+			r.Bound("creation_scenario_max_preemptions", 2)
+			st := sched.Explore(r, sched.Config{Name: job, MaxP: 2, MaxE: 0, MaxSteps: 6000, Body: c02CreateBody(&res), Outcome: func(*sched.Exec) string { return res }})
+			t.Logf("%s: execs=%d states=%d outcomes=%d complete=%v keys=%v", job, st.Execs, st.States, len(st.Outcomes), st.Complete, r.Keys())
 			return
 		}
 		if job == "M8-limit2-overflow/P2E0" {
